@@ -47,6 +47,11 @@ def random_action(cl, rng, w, state):
         cands.append((w['start'], ('Start',)))
     if w.get('stop', 0) > 0 and len(ids) > 1:
         cands.append((w['stop'], ('Stop',)))
+    running_children = [n for n in ids if N[n].child.get('st') == 'run']
+    if running_children and w.get('childdone', 0) > 0:
+        cands.append((w['childdone'], ('ChildDone',)))
+    if running_children and w.get('childkill', 0) > 0:
+        cands.append((w['childkill'], ('ChildKill',)))
     restartable = [n for n in N if not N[n].alive and N[n].generation > 0 and cl.cfg.get('journal')]
     if w.get('crash', 0) > 0 and ids and cl.cfg.get('journal'):
         cands.append((w['crash'], ('Crash',)))
@@ -93,6 +98,10 @@ def random_action(cl, rng, w, state):
         return ('Connect',) + rng.choice(sorted(connectable))
     if k == 'Compact':
         return ('Compact', rng.choice(ids))
+    if k == 'ChildDone':
+        return ('ChildDone', rng.choice(sorted(running_children)))
+    if k == 'ChildKill':
+        return ('ChildKill', rng.choice(sorted(running_children)), rng.choice([1, 1, 2, 3, 5]))
     if k == 'Crash':
         return ('Crash', rng.choice(ids))
     if k == 'Restart':
